@@ -73,6 +73,18 @@ def write_ini(
     accounting_methods: Optional[Dict[int, str]] = None,
     extra: str = "",
 ) -> None:
+    with open(path, "w", encoding="utf-8") as handle:
+        handle.write(ini_text(assets, exchanges, holders, layout, accounting_methods, extra))
+
+
+def ini_text(
+    assets: Sequence[str],
+    exchanges: Sequence[str],
+    holders: Sequence[str],
+    layout: Optional[Dict[str, Any]] = None,
+    accounting_methods: Optional[Dict[int, str]] = None,
+    extra: str = "",
+) -> str:
     layout = layout or default_layout()
     lines = ["[general]", f"assets = {', '.join(assets)}", f"exchanges = {', '.join(exchanges)}", f"holders = {', '.join(holders)}", ""]
     for table in ("IN", "OUT", "INTRA"):
@@ -87,11 +99,12 @@ def write_ini(
         lines.append("")
     if extra:
         lines.append(extra)
-    with open(path, "w", encoding="utf-8") as handle:
-        handle.write("\n".join(lines))
+    return "\n".join(lines) + "\n"
 
 
 def _cell_value(field: str, text: Any) -> Any:
+    if isinstance(text, dict) and "raw" in text:
+        return text["raw"]  # fault injection: the cell content exactly as given
     if text is None or text == "":
         return None
     if field in NUMERIC:
